@@ -1,0 +1,7 @@
+//go:build !verif
+
+package rpc
+
+// verifYield marks a schedule point for the verification harness,
+// it is a no-op unless built with the verif tag.
+func verifYield(point int) {}
